@@ -1069,6 +1069,78 @@ def sec_volumes_more(ck):
             if moved.world_space != "w2" or vals is None or not close(vals, want, tol):
                 ck.fail("composed_with_transform/values-move", "VolumeImg.composed_with_transform(W): value at W(world position) differs from the stored value",
                         dict(rep, world_transform=W.tolist()))
+        # ---- lattice transforms given as python callables that keep the dtype of their arguments (integer world
+        # coordinates stay integers all the way to the sampler), targets reaching beyond the field of view on both sides,
+        # and world coordinates queried as int64 / int32 / float64 / float32 arrays and python scalars
+        def lattice_transform(perm, shift):
+            inv = np.argsort(perm)
+
+            def mapping(x, y, z):
+                c = (x, y, z)
+                return tuple(c[perm[k]] + int(shift[k]) for k in range(3))
+
+            def inverse_mapping(x, y, z):
+                w = (x, y, z)
+                return tuple(w[inv[j]] - int(shift[inv[j]]) for j in range(3))
+            M = np.zeros((4, 4))
+            for k in range(3):
+                M[k, perm[k]] = 1
+            M[:3, 3] = shift
+            M[3, 3] = 1
+            return Transform("voxels", "world", mapping=mapping, inverse_mapping=inverse_mapping), M
+        perm_s = rng.permutation(3) if rng.random() < 0.5 else np.arange(3)
+        perm_t = rng.permutation(3) if rng.random() < 0.5 else np.arange(3)
+        tr_s, Sl = lattice_transform(perm_s, rng.integers(-3, 4, 3))
+        tr_t, Gl = lattice_transform(perm_t, Sl[:3, 3] + rng.integers(-2, 3, 3))
+        Nl = np.round(np.linalg.inv(Sl) @ Gl)
+        tshape_l = tuple(int(v) for v in rng.integers(3, 6, 3))
+        exp_l, inb_l = lookup_nd(data, Nl, tshape_l)
+        rep_l = {"source_lattice_affine": Sl.tolist(), "target_lattice_affine": Gl.tolist(), "voxel_map": Nl.tolist(), "shape": list(sshape + extra),
+                 "target_shape": tshape_l, "interpolation": interp, "data": data.tolist(), "source_layout": layout, "source_dtype": dtype,
+                 "note": "transforms are python callables that keep integer coordinates integer"}
+        ck.count(("volmore-lattice", Sl.tobytes(), Gl.tobytes(), interp, layout, dtype), bucket="volumes:lattice-transform:%s" % ("some-outside" if not inb_l.all() else "all-inside"))
+        lgrid = VolumeGrid(stored, tr_s, interpolation=interp)
+        lcalls = {
+            "VolumeGrid.resampled_to_img(VolumeGrid)": lambda: lgrid.resampled_to_img(VolumeGrid(np.zeros(tshape_l), tr_t)),
+            "VolumeGrid.resampled_to_img(VolumeImg)": lambda: lgrid.resampled_to_img(VolumeImg(np.zeros(tshape_l), Gl, "world")),
+            "VolumeImg.resampled_to_img(VolumeGrid)": lambda: VolumeImg(stored, Sl, "world", interpolation=interp).resampled_to_img(VolumeGrid(np.zeros(tshape_l), tr_t)),
+            "VolumeGrid.as_volume_img": lambda: lgrid.as_volume_img(affine=Gl, shape=tshape_l),
+        }
+        for name, fn in lcalls.items():
+            r = guarded(ck, "grid-to-grid/%s/lattice-transform" % name, dict(rep_l, entry=name), fn)
+            if r is None:
+                continue
+            out = np.asarray(r.get_fdata())
+            if out.shape != exp_l.shape or not close(out, exp_l, tol):
+                okin = out.shape == exp_l.shape and close(out[inb_l], exp_l[inb_l], tol)
+                ck.fail("%s/%s/lattice-transform" % ("outside-not-zero" if okin else "grid-to-grid", name),
+                        "%s between integer-preserving lattice transforms (interpolation %s): %s" % (
+                            name, interp, "target points outside the source field of view do not get 0" if okin else "resampled data differs from the looked-up source values"),
+                        dict(rep_l, entry=name, got=out.tolist(), expected=exp_l.tolist()))
+        # values_in_world at lattice points inside and outside the field of view, every coordinate type
+        vq = np.stack([rng.integers(-sshape[k] - 1, 2 * sshape[k] + 1, 8) for k in range(3)])
+        vq[:, :3] = np.stack([rng.integers(0, sshape[k], 3) for k in range(3)])          # three inside
+        vq[:, 3] = -1 - rng.integers(0, 2, 3) * 0                                          # just below every axis
+        vq[:, 4] = np.array(sshape)                                                         # just above every axis
+        inside_q = np.all((vq >= 0) & (vq < np.array(sshape)[:, None]), axis=0)
+        want_q = np.zeros((vq.shape[1],) + extra)
+        want_q[inside_q] = data[tuple(vq[:, inside_q])]
+        wq = np.stack([vq[perm_s[k]] + int(Sl[k, 3]) for k in range(3)])
+        for ctype in ("int64", "int32", "float64", "float32", "python-int"):
+            for name, obj in (("VolumeGrid.values_in_world", lgrid), ("VolumeImg.values_in_world", VolumeImg(stored, Sl, "world", interpolation=interp))):
+                def query(obj=obj, ctype=ctype):
+                    if ctype == "python-int":
+                        return np.array([np.asarray(obj.values_in_world(int(wq[0, q]), int(wq[1, q]), int(wq[2, q])))[0] for q in range(wq.shape[1])])
+                    return np.asarray(obj.values_in_world(wq[0].astype(ctype), wq[1].astype(ctype), wq[2].astype(ctype)))
+                vals = guarded(ck, "%s/%s-coordinates" % (name, ctype), dict(rep_l, entry=name, world_points=wq.T.tolist()), query)
+                if vals is None:
+                    continue
+                if vals.shape != want_q.shape or not close(vals, want_q, tol):
+                    okin = vals.shape == want_q.shape and close(vals[inside_q], want_q[inside_q], tol)
+                    ck.fail("%s/%s/%s-coordinates" % ("outside-not-zero" if okin else "grid-to-grid", name, "integer" if "int" in ctype else "float"),
+                            "%s with %s world coordinates: %s (voxel positions %s)" % (
+                                name, ctype, "a point outside the field of view does not get 0" if okin else "lattice values differ from the stored values", vq.T.tolist()),
+                            dict(rep_l, entry=name, coordinate_type=ctype, world_points=wq.T.tolist(), got=np.asarray(vals).tolist(), expected=want_q.tolist()))
         if it % 10 == 0:
             try:
                 img.resampled_to_img(VolumeImg(np.zeros(tshape), G, "elsewhere"))
@@ -1120,6 +1192,62 @@ def sec_realign(ck, T):
         if not close(res, data, 1e-8):
             ck.fail("realign4d/identity-does-not-reproduce-input", "resample4d with identity transforms and no time interpolation changes the data (max %.3g)"
                     % np.max(np.abs(res - data)), {"shape": shape, "affine": aff.tolist(), "source_layout": layout})
+    # resample4d (Realign4dAlgorithm.resample_full_data) with a DIFFERENT non-identity transform per scan on a grid whose
+    # affine is not the identity (anisotropic, flipped, offset): (a) world translations by whole voxels look the shifted
+    # voxel up; (b) arbitrary small rigid motions agree with an independent evaluation of the property statement
+    # (scipy cubic spline at inv(affine).T_t.affine.v) away from the border
+    from scipy.ndimage import map_coordinates as ref_map_coordinates
+    nfull = ck.n(6, 40)
+    for it in range(nfull):
+        shape = tuple(int(s) for s in rng.integers(7, 10, 3)) + (3,)
+        g = np.indices(shape).astype(float)
+        data = np.sin(g[0] * 0.6 + g[3]) + np.cos(g[1] * 0.5) * 0.5 + g[2] * 0.1 + rng.normal(size=shape) * 0.05
+        layout = LAYOUTS[it % len(LAYOUTS)]
+        stored = relayout(data, layout)
+        zooms = rng.uniform(1.0, 3.0, 3) * np.array(rng.choice([-1, 1], 3))
+        aff = hom(np.diag(zooms), rng.normal(size=3) * 5)
+        for kind in ("voxel-shifts", "rigid"):
+            vecs, shifts = [], []
+            for t in range(shape[3]):
+                vec = np.zeros(12)
+                if kind == "voxel-shifts":
+                    sft = rng.integers(-1, 2, 3)
+                    if t == 0 and not sft.any():
+                        sft[int(rng.integers(0, 3))] = 1
+                    shifts.append(sft)
+                    vec[:3] = aff[:3, :3] @ sft
+                else:
+                    vec[:3] = rng.normal(size=3) * 0.8
+                    vec[3:6] = rng.normal(size=3) * 0.04
+                vecs.append(vec)
+            for time_interp in (False, True):
+                rep = {"entry": "resample4d", "shape": shape, "affine": aff.tolist(), "transform_params": [v.tolist() for v in vecs],
+                       "time_interp": time_interp, "source_layout": layout, "kind": kind}
+                ck.count(("resample4d-moving", it, kind, time_interp), bucket="realign4d:resample4d:%s" % kind)
+                transforms = [Rigid(v) for v in vecs]
+                res = guarded(ck, "realign4d/resample4d/%s" % kind, rep,
+                              lambda: gr.resample4d(gr.Image4d(stored, aff, tr=2.0, slice_times=0, slice_info=(2, 1)), transforms, time_interp=time_interp))
+                if res is None:
+                    continue
+                xyz = np.indices(shape[:3]).reshape(3, -1)
+                for t in range(shape[3]):
+                    Tv = np.linalg.inv(aff) @ transforms[t].as_affine() @ aff
+                    sv = Tv[:3, :3] @ xyz + Tv[:3, 3:]
+                    if kind == "voxel-shifts":
+                        src = np.round(sv).astype(int)
+                        sel = np.all((src >= 0) & (src < np.array(shape[:3])[:, None]), axis=0)
+                        want = data[..., t][tuple(src[:, sel])]
+                        tol_t = 1e-7
+                    else:
+                        sel = np.all((sv >= 2) & (sv <= np.array(shape[:3])[:, None] - 3), axis=0)
+                        want = ref_map_coordinates(data[..., t], sv[:, sel], order=3, mode="mirror")
+                        tol_t = 1e-6
+                    got = res[..., t].reshape(-1)[sel]
+                    if sel.any() and not close(got, want, tol_t):
+                        ck.fail("realign4d/resample4d/%s/%s" % (kind, "time-interp" if time_interp else "no-time-interp"),
+                                "resample4d with per-scan %s on a non-identity grid: scan %d is not the source sampled at inv(affine).T.affine.v (max %.3g)"
+                                % (kind, t, np.max(np.abs(got - want))), dict(rep, scan=t))
+                        break
     # Realign4dAlgorithm.resample(t) on the working grid: identity transforms reproduce the input at the grid points;
     # a world translation by an integer number of voxels looks the shifted voxel up (interior points)
     nra = ck.n(6, 30)
@@ -1168,7 +1296,7 @@ def sec_realign(ck, T):
             if not close(r.data, data[x, y, z, :], 1e-7):
                 ck.fail("realign4d/resample-voxel-shift", "Realign4dAlgorithm.resample with a one-voxel world translation does not look the shifted voxel up "
                         "(max %.3g)" % np.max(np.abs(r.data - data[x, y, z, :])), rep)
-    ck.section("realign4d", scanner_cases=ncase, identity_runs=nid, algorithm_resample_runs=nra)
+    ck.section("realign4d", scanner_cases=ncase, identity_runs=nid, algorithm_resample_runs=nra, resample4d_moving_runs=nfull)
 
 
 def run(ck):
